@@ -5,6 +5,9 @@ import datetime as dt
 import itertools
 import os
 
+import numpy as np
+import pandas as pd
+
 from mc import fsbuild
 
 H = dt.timedelta(hours=1)
@@ -13,8 +16,10 @@ US = dt.timedelta(microseconds=1)
 
 FULL_END = ("-{end_year}{end_month}{end_day}{end_hour}{end_minute}")
 
-# name -> dict(rel=template, unit=lattice step, level=finest directory level,
-#              sat=bool, tc=time_coverage or None, kind=...)
+# name -> dict(rel=template, level=finest directory level, sat/ver=the
+#              template has that user placeholder, tc=time_coverage or None,
+#              relative=the template is handed over relative to the working
+#              directory)
 TEMPLATES = {
     "flat": dict(rel="f_{year}{month}{day}{hour}{minute}" + FULL_END + ".dat",
                  level=None),
@@ -46,7 +51,19 @@ TEMPLATES = {
                      level="day", tc=dt.timedelta(hours=9)),
     "fullend_day": dict(rel="{year}/{month}/{day}/f{hour}{minute}" + FULL_END
                         + ".dat", level="day"),
+    "month": dict(rel="{year}/{month}/f_{day}{hour}{minute}" + FULL_END +
+                  ".dat", level="month"),
+    # `*` as a directory level of its own
+    "wilddir": dict(rel="{year}/{month}/{day}/d*/{hour}{minute}-{end_hour}"
+                    "{end_minute}.dat", level="day"),
+    "relative": dict(rel="{year}/{month}/{day}/{hour}{minute}-{end_hour}"
+                     "{end_minute}.dat", level="day", relative=True),
+    "satver": dict(rel="{sat}/{year}/{month}/{day}/{ver}_{hour}{minute}-"
+                   "{end_hour}{end_minute}.dat", level="day", sat=True,
+                   ver=True),
 }
+# C16's neighbourhood radius (it does not use the month-level template, whose
+# period has no single length)
 LEVEL_PERIOD = {None: None, "year": dt.timedelta(days=366),
                 "day": dt.timedelta(days=1), "hour": H}
 
@@ -84,11 +101,14 @@ def lattice(tname, wname):
 
 
 def users_of(tname):
-    if TEMPLATES[tname].get("sat"):
-        return {"sat": fsbuild.UserPH(
-            ["A", "B"], accepts=lambda s: len(s) > 0 and "\n" not in s,
-            maxlen=40)}
-    return {}
+    spec = TEMPLATES[tname]
+    free = dict(accepts=lambda s: len(s) > 0 and "\n" not in s, maxlen=40)
+    out = {}
+    if spec.get("sat"):
+        out["sat"] = fsbuild.UserPH(["A", "B"], **free)
+    if spec.get("ver"):
+        out["ver"] = fsbuild.UserPH(["1", "2"], **free)
+    return out
 
 
 def read_name(tname, relname):
@@ -100,7 +120,23 @@ def read_name(tname, relname):
         return None
     env = envs[0]
     t0, t1 = fsbuild.times_from_fields(env, spec.get("tc"))
-    return t0, t1, {k: v for k, v in env.items() if k == "sat"}
+    return t0, t1, {k: v for k, v in env.items() if k not in fsbuild.WIDTH}
+
+
+def variants(spec, start, dur):
+    """User-placeholder values under which the candidate file (start, dur)
+    exists: two files share their start under different values."""
+    if not spec.get("sat"):
+        return [{}]
+    twice = (start, dur) in ((4, 1), (6, 1))
+    if not spec.get("ver"):
+        return [{"sat": s} for s in (("A", "B") if twice else ("A",))]
+    if (start, dur) == (4, 1):
+        return [{"sat": "A", "ver": "1"}, {"sat": "B", "ver": "2"}]
+    if (start, dur) == (6, 1):
+        return [{"sat": "A", "ver": "1"}, {"sat": "B", "ver": "1"},
+                {"sat": "A", "ver": "2"}]
+    return [{"sat": "A", "ver": "1"}]
 
 
 def pool(tname, wname):
@@ -110,7 +146,7 @@ def pool(tname, wname):
     base, n, step = window(tname, wname)
     if tname == "ymdh":
         steps = POOL_STEPS_HOUR
-    elif spec["level"] in (None, "year"):
+    elif spec["level"] in (None, "year", "month"):
         steps = POOL_STEPS_LONG
     else:
         steps = POOL_STEPS
@@ -123,13 +159,9 @@ def pool(tname, wname):
             t1 = t0
         else:
             t1 = t0 + dur * step
-        sats = ["A"]
-        if spec.get("sat") and (start, dur) in ((4, 1), (6, 1)):
-            sats = ["A", "B"]        # same start under two placeholder values
-        for sat in sats:
-            attrs = {"sat": sat} if spec.get("sat") else {}
-            rel = fsbuild.render(spec["rel"], t0, t1, attrs,
-                                 wild=("w%d" % start))
+        for attrs in variants(spec, start, dur):
+            wild = "w%d" % start
+            rel = fsbuild.render(spec["rel"], t0, t1, attrs, wild=wild)
             back = read_name(tname, rel)
             if back is None:
                 raise AssertionError("generator/parser disagree on " + rel)
@@ -137,7 +169,7 @@ def pool(tname, wname):
                 # not representable (e.g. 24 h with end_hour only): use the
                 # longest representable duration below it
                 t1b = t0 + (dur - 1) * step
-                rel = fsbuild.render(spec["rel"], t0, t1b, attrs)
+                rel = fsbuild.render(spec["rel"], t0, t1b, attrs, wild=wild)
                 back = read_name(tname, rel)
                 assert back[1] == t1b, rel
                 t1 = t1b
@@ -148,17 +180,22 @@ def pool(tname, wname):
 
 
 def populations(n, maxsize):
-    """Index tuples: the whole pool first, then every subset of size
-    1..maxsize (the whole pool is not repeated)."""
+    """Index tuples: the whole pool first, then the empty population, then
+    every subset of size 1..maxsize (the whole pool is not repeated)."""
     yield tuple(range(n))
+    yield ()
     for k in range(1, maxsize + 1):
         for idx in itertools.combinations(range(n), k):
             if len(idx) != n:
                 yield idx
 
 
-def materialise(root, tname, files):
-    """Creates the (empty) files; returns FileModel list."""
+def materialise(root, tname, files, dirs_only=()):
+    """Creates the (empty) files, and the directories of the candidates
+    `dirs_only` without their files; returns the FileModel list."""
+    os.makedirs(root, exist_ok=True)
+    for _, _, _, rel in dirs_only:
+        os.makedirs(os.path.dirname(os.path.join(root, rel)), exist_ok=True)
     out = []
     for t0, t1, attrs, rel in files:
         path = os.path.join(root, rel)
@@ -172,4 +209,63 @@ def make_fileset(root, tname, **kw):
     spec = TEMPLATES[tname]
     if spec.get("tc") is not None:
         kw.setdefault("time_coverage", spec["tc"])
+    if spec.get("relative"):
+        # the working directory stays at root: FileSet.path resolves a
+        # relative template anew on every access
+        os.chdir(root)
+        return FileSet(spec["rel"], name=tname, **kw)
     return FileSet(os.path.join(root, spec["rel"]), name=tname, **kw)
+
+
+def not_the_watchdog(exc):
+    """Called by the guards around typhon calls: the TimeoutError that the
+    driver's watchdog raises from its signal handler is a harness error, not
+    an answer of typhon."""
+    if isinstance(exc, TimeoutError):
+        raise exc
+
+
+# ------------------------------------------------------------------ oracle
+
+def passes(f, opts):
+    """Exclusion by name / by period and placeholder filters, as the harness
+    reads them: opts = dict(exclude_names=[path], exclude_periods=[(p0, p1)],
+    white={placeholder: [values]}, black={placeholder: [values]})."""
+    if f.path in opts.get("exclude_names", ()):
+        return False
+    for p0, p1 in opts.get("exclude_periods", ()):
+        if f.t0 <= p1 and f.t1 >= p0:
+            return False
+    for name, values in opts.get("white", {}).items():
+        if f.attrs.get(name) not in values:
+            return False
+    for name, values in opts.get("black", {}).items():
+        if f.attrs.get(name) in values:
+            return False
+    return True
+
+
+# ------------------------------------------------- spellings of an instant
+
+SPELLINGS = ("iso", "short", "pandas", "numpy")
+
+
+def spell(t, how):
+    """The datetime t as another type that typhon documents for timestamps
+    ("YYYY-MM-DD hh:mm:ss" with hours, minutes and seconds optional;
+    pandas.Timestamp; numpy.datetime64). None stays None."""
+    if t is None or how is None:
+        return t
+    if how == "iso":
+        return t.isoformat(" ")
+    if how == "short":
+        if t.second or t.microsecond:
+            return t.isoformat(" ")
+        if t.hour or t.minute:
+            return t.strftime("%Y-%m-%d %H:%M")
+        return t.strftime("%Y-%m-%d")
+    if how == "pandas":
+        return pd.Timestamp(t)
+    if how == "numpy":
+        return np.datetime64(t)
+    raise ValueError(how)
